@@ -119,7 +119,7 @@ func (h *statusSessionHandler) handleStatusRequest(pc *proto.PacketContext) {
 
 	log := h.log
 	if h.resolvePingResponse == nil {
-		e.ping = newInitialPing(h.proxy, pc.Protocol)
+		e.ping = newInitialPing(h.proxy, h.conn.Protocol())
 	} else {
 		var err error
 		var res *packet.StatusResponse
